@@ -27,7 +27,8 @@ THEOREMS = ['C01_codes_inverse', 'C01_prism_perm_involutive', 'C01_orientation',
             'C01_bang_counterexample_upstream', 'C01_split_egroup_counterexample_upstream',
             'C01_roundtrip', 'C01_exMesh_wf', 'C01_roundtrip_statement', 'C01_format_insensitive_whitespace',
             'C01_format_insensitive_split_whole', 'C01_format_insensitive', 'C01_roundtrip_any_format',
-            'C01_write_keeps_object', 'C01_history_roundtrip', 'C01_append_counterexample']
+            'C01_write_keeps_object', 'C01_history_roundtrip', 'C01_append_counterexample',
+            'C01_assign_complete', 'C01_assign_sound', 'C01_assign_dict_counterexample', 'C01_split_initial_counterexample']
 PARTIAL = [
     'C01_roundtrip / C01_roundtrip_statement (whole file, readMsh (writeMsh m) = canon m) are over the model of '
     'write_msh / _read_msh + remove_useless_nodes and its well-formed inputs Femio.C01.WF (>= 1 node and element block, '
@@ -39,6 +40,16 @@ PARTIAL = [
     'in an !ELEMENT block (an empty !ELEMENT block makes the mixed branch of the real reader raise; decide-d example in '
     'Lemmas/FistrG4.lean) and a header that belongs to !NODE or !ELEMENT only; for !EGROUP the code violates G4 '
     '(finding G6, C01_split_egroup_counterexample_upstream); G3 data lines are lines not starting with "!" on both sides',
+    'several sections (round 5): Model/FistrSections.lean models the section / material lines of the writer (secMatLines, tie '
+    'D: string-identical) and the reader\'s resolution of materials onto elements (assignRows; C01_assign_complete / '
+    'C01_assign_sound: exactly the members of every section row\'s group get that row\'s material, for any table orders and '
+    'any number of rows naming one material; C01_assign_dict_counterexample: the dictionary-keyed walk loses a section; tie '
+    'D: assignOfRead of the text vs elemental_data of the real reader on every case with a section); the whole-file theorem '
+    'C01_roundtrip is NOT extended to several sections (MshIn.sec is one optional section): for them the round trip is '
+    'covered by the oracle and by the model READER on the written text only',
+    'G7 (!INITIAL CONDITION split in two): the code violates it (finding, C01_split_initial_counterexample transcribes the '
+    'current reader: last block wins + positional zero padding); the repair configuration is detected from behaviour '
+    '(`initial-merge`: model reader on the split text = 0, on the unsplit text = 1), there is no ReadCfg flag for it',
     'C01_orientation_volume_affine: signed-volume equality is proved for affine prisms (for non-planar quads the two '
     'tet decompositions differ); the geometry-independent statement is the face-cycle theorem C01_orientation',
     'decimal <-> binary rounding of %.12E / float() is runtime (trusted: correctly rounded); arbitrary doubles are '
@@ -75,12 +86,33 @@ RULE = ('seeded generator: node ids distinct positive (dense / sparse / 10^6 / 2
         'the directory it was written to / read from (overwrite=True) or over an export of another mesh (overwrite=True) '
         'and read back; expectation = the object\'s public state just before the write (snapshot_case), which is also '
         'given to the model (text identity, canon) and to an independently built fresh object (text identity). '
+        'Input dimensions added in round 5: 2-4 sections on disjoint groups with a many-to-one section -> material relation '
+        '(two parts of the same material in 60 % of them), the material table in its own order, with materials no section '
+        'uses, deliberately often with n_material == n_element or n_node (square shapes), materials with equal values; two '
+        'groups with the same members; structured fields for the initial temperature and for 1-2 coordinate axes (uniform, '
+        'k * 10^-9..-15 tiny-distinct, near-uniform base + k * 10^-6..-10 * base, uniform-except-one, small integers) in '
+        'decimal and binary form - values that "look equal" under an absolute epsilon or np.allclose defaults; dtype / memory '
+        'layout of the arrays handed to femio (15 % of the cases); variant G7 (the !INITIAL CONDITION block split in two, 12 '
+        'cases); stream large (quick: one mesh, thorough: four) with more than 65536 nodes / elements / group members / '
+        'temperature rows in one block each and two sections; the history stream also edits several sections / materials '
+        '(one row of a material table in place / overwrite / update_data, sections exchange their groups, sections get other '
+        'materials). '
         'distinct = distinct (mesh, extras) after canonical JSON; non-trivial = at least one '
         'element and ids not 1..n ascending or more than one type or extras present')
 ASSUMPTIONS = [
     'ids < 2^53 (the reader converts ids through float64)',
     'group / material names match \\w+ (ASCII) and differ from ALL',
-    'one section with one STATIC material (Young_modulus, Poisson_ratio): pandas 3 removed DataFrame.append (F5)',
+    'sections: every section has one STATIC material (Young_modulus, Poisson_ratio); one section (the layout the Lean writer '
+    'model and C01_roundtrip cover) or, since round 5, 2-4 sections on pairwise disjoint groups (an element has at most one '
+    'material) with a many-to-one section -> material relation and a material table of its own order - built as the reader '
+    'itself builds them (FEMAttributes(names, ids=material names, list_arrays)), because pandas 3 removed DataFrame.append '
+    '(F5) which update() of a second material needs; sections whose groups overlap are outside (counted in the history stream)',
+    'the two property tables of the materials (Young_modulus, Poisson_ratio) list the materials in the same order; a history '
+    'that leaves them misaligned (update_data of one property re-sorts it) is counted as outside:section',
+    'dtype / layout dimension (`arrays`): the same VALUES handed over as float32 / int64 / int32 / uint8 / unsigned ids / '
+    'Fortran-ordered / strided / read-only arrays; a dtype is only used where it holds the values exactly (integer-valued '
+    'fields are generated for it), so the expectation is the value, whatever array kind carried it',
+    'stream large: parameters only in the replay (regenerated by expand()); oracle only, not sent through the model',
     'initial temperature is a full nodal field stored in node order (femio nodal_data layout)',
     'element groups are non-empty (an empty !EGROUP block cannot be represented in the format); empty groups run in '
     'the labelled stream `outside:empty-group`',
@@ -110,7 +142,9 @@ SHELL = {'tri', 'quad'}
 # G5 / G6 are inside the property's quantifier ("comment lines", "a block split into several blocks of the same
 # kind") by the HEC-MW format definition: failures there are findings (ctx.fail).  Set to False to demote a stream
 # to an observation.
-FINDING_STREAMS = {'G5': True, 'G6': True}
+# G7 (round 5): the `!INITIAL CONDITION, TYPE=TEMPERATURE` block split in two - "a block split into several blocks of the
+# same kind" names no block kind; HEC-MW allows several !INITIAL CONDITION blocks (one per node group / node range).
+FINDING_STREAMS = {'G5': True, 'G6': True, 'G7': True}
 
 
 # ------------------------------------------------------------------ numbers
@@ -169,7 +203,118 @@ def ids_ranges(rnd, n):
     return ids
 
 
-def gen_extras(rnd, case):
+def secs_of(case):
+    """([(shell, egrp, material name)] in section-table order, {material name: (young, poisson)} in material-table order)
+    of a case: `sec` = the one-section layout the Lean writer model covers, `multi` = several sections / materials
+    (round 5: the relation section -> material is many-to-one, the two tables have their own orders)"""
+    m = case.get('multi')
+    if m:
+        return [tuple(x) for x in m['secs']], {nm: (y, p) for nm, y, p in m['mats']}
+    s = case.get('sec')
+    if s is None:
+        return [], {}
+    return [(s['shell'], s['egrp'], s['mat'])], {s['mat']: (s['young'], s['poisson'])}
+
+
+def field_values(rnd, n, decimal, style):
+    """n values of ONE field (initial temperature, one coordinate axis) with structure across the nodes (round 5, class L:
+    fields that "look uniform / look equal" under an absolute epsilon or under np.allclose defaults although every value is
+    distinct and exactly representable with the 13 digits of the format):
+      uniform        every node the same value
+      tiny-distinct  k * 10^e, e in -15..-9 (non-dimensionalised perturbation fields)
+      near-uniform   base + k * delta with delta / base = 10^-6 .. 10^-12 (base from 1e-4 to 1e3, also negative)
+      one-off        uniform except one node that differs in the last digits
+      integers       small integers (also the values an integer-dtype field holds)
+    decimal=False: the same structure on binary doubles (base * (1 + k 2^-40))"""
+    ks = rnd.sample(range(1, 3 * n + 2), n)
+    if style == 'integers':
+        vals = [F(rnd.randint(-20, 400)) for _ in range(n)]
+    elif style == 'tiny-distinct':
+        e = rnd.randint(-15, -9)
+        vals = [F(k) * F(10) ** e for k in ks]
+    else:
+        base = F(rnd.choice([1, 2, 3, 5, 25, 273, 3000001])) * F(10) ** rnd.randint(-4, 3) * rnd.choice([1, 1, 1, -1])
+        lead = 0                                            # floor(log10 |base|)
+        while abs(base) >= F(10) ** (lead + 1):
+            lead += 1
+        while abs(base) < F(10) ** lead:
+            lead -= 1
+        delta = F(10) ** (lead - rnd.randint(6, 10))        # base has <= 7 digits, k < 1000: <= 13 significant digits
+        if style == 'uniform':
+            vals = [base] * n
+        elif style == 'one-off':
+            vals = [base] * n
+            vals[rnd.randrange(n)] = base + rnd.choice([1, -1, 7]) * delta
+        else:
+            vals = [base + k * delta for k in ks]
+    out = []
+    for v, k in zip(vals, ks):
+        if decimal:
+            sc = X.sci_of_fraction(v, 12)
+            assert sc is not None, v
+            out.append(['s'] + list(sc))
+        else:
+            out.append(['h', (float(v) * (1 + (k * 2.0 ** -44 if style in ('tiny-distinct', 'near-uniform') else 0))).hex()])
+    return out
+
+
+FIELD_STYLES = ['uniform', 'tiny-distinct', 'near-uniform', 'one-off', 'integers']
+
+
+def gen_multi(rnd, case, names, fam, existing=False):
+    """several sections, each with one material (property: "one-material sections"): the groups of the sections are
+    pairwise disjoint (every element has at most one material), the relation section -> material is many-to-one in 60 % of
+    the cases (two parts made of the same material), the material table has its own order, may hold a material no
+    section uses and, deliberately often, as many materials as there are elements or nodes (square shapes)"""
+    eids = [e for b in case['blocks'].values() for e, _ in b]
+    if len(eids) < 2:
+        return None
+    k = rnd.randint(2, min(4, len(eids)))
+    if existing:                        # the one-group-per-element layout: sections on k of the existing groups
+        gnames = rnd.sample(names, k)
+    else:
+        pool = rnd.sample(eids, rnd.randint(k, len(eids)))
+        cuts = sorted(rnd.sample(range(1, len(pool)), k - 1))
+        parts = [pool[a:b] for a, b in zip([0] + cuts, cuts + [len(pool)])]
+        gnames = []
+        for part in parts:
+            nm = fam.pop() if fam else X.rand_name(rnd, names)
+            names.append(nm)
+            gnames.append(nm)
+            case['groups'].append([nm, part])
+        rnd.shuffle(case['groups'])        # dict order of the groups differs from the order of the sections
+    n_mat = rnd.randint(1, k - 1) if k > 1 and rnd.random() < .6 else k
+    mnames = []
+    for _ in range(n_mat):
+        nm = rnd.choice(gnames + (fam[:3] if fam else [])) if rnd.random() < .25 else X.rand_name(rnd, mnames)
+        if nm in mnames:
+            nm = X.rand_name(rnd, mnames + names)
+        mnames.append(nm)
+    assign = mnames + [rnd.choice(mnames) for _ in range(k - n_mat)]
+    rnd.shuffle(assign)
+    shell_ok = set(case['blocks']) <= SHELL
+    secs = [[bool(shell_ok and rnd.random() < .6), g, m] for g, m in zip(gnames, assign)]
+    want = rnd.choice([None, None, len(eids), len(case['nodes'])])      # square shapes: n_material == n_element / n_node
+    while len(mnames) < (want or 0) and len(mnames) < 12:
+        mnames.append(X.rand_name(rnd, mnames + names))
+    if want is None and rnd.random() < .15:
+        mnames.append(X.rand_name(rnd, mnames + names))                  # a material no section uses
+    rnd.shuffle(mnames)                 # the material table in its own order
+    same = rnd.random() < .2            # materials with equal / nearly equal values stay separate materials
+    y0, p0 = [list(X.rand_sci(rnd, 8, 'unit', allow_zero=False)[1:]) for _ in range(2)]
+    mats = []
+    for j, nm in enumerate(mnames):
+        if same:
+            y, p = [y0[0] + rnd.choice([0, 0, j]), y0[1]], list(p0)
+        else:
+            y, p = [list(X.rand_sci(rnd, 8, 'unit', allow_zero=False)[1:]) for _ in range(2)]
+        mats.append([nm, y, p])
+    return {'secs': secs, 'mats': mats}
+
+
+def gen_extras(rnd, case, round5=False):
+    """round5=True adds the input dimensions of round 5 (several sections / many-to-one materials, groups with equal
+    members, structured temperature fields); the default consumes the PRNG exactly as before"""
     eids = [e for b in case['blocks'].values() for e, _ in b]
     names = []
     groups = []
@@ -209,6 +354,29 @@ def gen_extras(rnd, case):
     case['temp'] = None
     if rnd.random() < .5:
         case['temp'] = [[i, rand_num(rnd, case['decimal'])] for i, _ in case['nodes']]
+    if not round5:
+        return case
+    if groups and style != 'singletons' and rnd.random() < .2:       # two groups with the same members (in another order): many-to-one
+        nm, members = rnd.choice(groups)
+        twin = list(members)
+        rnd.shuffle(twin)
+        groups.insert(rnd.randint(0, len(groups)), [new_name(), twin])
+        case['group_style'] += '+twin'
+    if rnd.random() < .3:
+        multi = gen_multi(rnd, case, names, fam, existing=style == 'singletons')
+        if multi is not None:
+            case['sec'], case['multi'] = None, multi
+            case['group_style'] += '+section-groups'
+    if case['temp'] is not None and rnd.random() < .45:
+        case['temp_style'] = rnd.choice(FIELD_STYLES)
+        vals = field_values(rnd, len(case['nodes']), case['decimal'], case['temp_style'])
+        case['temp'] = [[i, v] for (i, _), v in zip(case['nodes'], vals)]
+    if case['kind'] == 'comb' and rnd.random() < .15:      # flat / thin / tiny meshes: one or two structured coordinate axes
+        case['coord_style'] = rnd.choice(FIELD_STYLES)
+        for ax in rnd.sample(range(3), rnd.choice([1, 1, 2])):
+            vals = field_values(rnd, len(case['nodes']), case['decimal'], case['coord_style'])
+            for (_, p), v in zip(case['nodes'], vals):
+                p[ax] = v
     return case
 
 
@@ -265,7 +433,42 @@ def gen_geom(rnd):
 
 def gen_case(rnd):
     case = gen_geom(rnd) if rnd.random() < .3 else gen_comb(rnd, round3=True)
-    return gen_extras(rnd, case)
+    case = gen_extras(rnd, case, round5=True)
+    if rnd.random() < .15:
+        case['arrays'] = gen_arrays(rnd, case)
+    return case
+
+
+def expand(case):
+    """a case given by parameters only (`large`: more than 65536 rows of every kind - class G / M: block-wise writers, 16-bit
+    counters) is regenerated deterministically from them, so that its replay file stays small"""
+    if 'large' not in case:
+        return case
+    import random
+    prm = case['large']
+    rnd = random.Random(prm['seed'])
+    n, t = prm['n_nodes'], prm['type']
+    ids = rnd.sample(range(1, prm['id_span'] * n), n) if prm['id_span'] > 1 else list(range(1, n + 1))
+    if prm['order'] == 'descending':
+        ids.sort(reverse=True)
+    elif prm['order'] == 'ascending':
+        ids.sort()
+
+    def num():      # a 13-digit decimal, kept as the double nearest to it (cheap to convert; the model is not asked)
+        return ['h', float(f'{rnd.choice("-+")}{rnd.randint(10 ** 12, 10 ** 13 - 1)}e{rnd.randint(-15, -9)}').hex()]
+    nodes = [[i, [num(), num(), num()]] for i in ids]
+    a = ARITY[t]
+    n_el = n - a + 1                      # a strip: element k uses the nodes k .. k + arity - 1 in storage order
+    eids = rnd.sample(range(1, 3 * n_el), n_el)
+    rows = [[e, ids[k:k + a]] for k, e in enumerate(eids)]
+    cut = rnd.randint(1, n_el - 1)
+    groups = [['PART1', [e for e, _ in rows[:cut]]], ['PART10', [e for e, _ in rows[cut:]]]]
+    out = {'kind': 'large', 'order': prm['order'], 'id_style': f'span x{prm["id_span"]}', 'decimal': False, 'nodes': nodes,
+           'blocks': {t: rows}, 'positive': [], 'group_style': 'large', 'groups': groups, 'has_all': True,
+           'sec': None, 'multi': {'secs': [[False, 'PART10', 'M2'], [False, 'PART1', 'M1']],
+                                  'mats': [['M1', [205000000, 11], [300000000, -1]], ['M2', [700000000, 10], [330000000, -1]]]},
+           'temp': [[i, num()] for i in ids] if prm['temp'] else None, 'large': prm}
+    return out
 
 
 def mat_float(x):
@@ -274,11 +477,65 @@ def mat_float(x):
     return float.fromhex(x[1]) if x[0] == 'h' else X.sci_float((False, *x), 8)
 
 
+ARRAY_KINDS = {
+    'coord': ['f8:F', 'f8:strided', 'f8:readonly', 'f4', 'i8', 'i4'],
+    'temp': ['f8:F', 'f8:strided', 'f8:readonly', 'f4', 'i8', 'i4', 'u1'],
+    'conn': ['i8:F', 'i8:strided', 'i8:readonly', 'i4', 'u4', 'u8', 'i4:F'],
+    'node_ids': ['i4', 'u4', 'u8', 'i8:strided', 'i8:readonly'],
+    'elem_ids': ['i4', 'u4', 'u8', 'i8:strided', 'i8:readonly'],
+}
+
+
+def as_kind(a, kind):
+    """the same VALUES in another dtype / memory layout (class F): `<dtype>[:F | :strided | :readonly]`; a dtype that
+    cannot hold the values exactly leaves the array as it is (the caller only asks for kinds that can)"""
+    if not kind:
+        return a
+    dt, _, lay = kind.partition(':')
+    with np.errstate(all='ignore'):
+        b = a.astype(np.dtype(dt))
+        if not np.array_equal(b.astype(a.dtype), a):
+            return a
+    if lay == 'F':
+        b = np.asfortranarray(b)
+    elif lay == 'strided':                      # every second entry of a larger buffer: not contiguous
+        big = np.zeros((2 * b.shape[0],) + b.shape[1:], dtype=b.dtype)
+        big[::2] = b
+        b = big[::2]
+    elif lay == 'readonly':
+        b = b.copy()
+        b.setflags(write=False)
+    return b
+
+
+def gen_arrays(rnd, case):
+    """dtype / layout of the arrays the caller hands to femio (one or two parts per case); value-changing dtypes only where
+    the values are exactly representable (float32 / integer coordinates and temperatures need such values: the styles
+    `integers` / small decimals provide them)"""
+    out = {}
+    for part in rnd.sample(sorted(ARRAY_KINDS), rnd.choice([1, 1, 2])):
+        if part == 'temp' and case['temp'] is None:
+            continue
+        out[part] = rnd.choice(ARRAY_KINDS[part])
+        if not out[part].startswith('f8') and part in ('temp', 'coord'):      # values such a dtype holds exactly
+            if part == 'temp':
+                vals = field_values(rnd, len(case['nodes']), True, 'integers')
+                case['temp'] = [[i, ['s', False] + v[2:]] for (i, _), v in zip(case['nodes'], vals)]
+            elif case['kind'] == 'comb':
+                for ax in range(3):
+                    for (_, p), v in zip(case['nodes'], field_values(rnd, len(case['nodes']), True, 'integers')):
+                        p[ax] = v
+    return out
+
+
 def build_fem(case):
     from femio import FEMData, FEMAttribute, FEMElementalAttribute, FEMAttributes
-    nodes = FEMAttribute('NODE', ids=np.array([i for i, _ in case['nodes']], dtype=np.int64),
-                         data=np.array([[num_float(v) for v in p] for _, p in case['nodes']], dtype=float), silent=True)
-    el = {t: FEMAttribute(t, ids=np.array([e for e, _ in b], dtype=np.int64), data=np.array([c for _, c in b], dtype=np.int64),
+    kinds = case.get('arrays') or {}
+    nodes = FEMAttribute('NODE', ids=as_kind(np.array([i for i, _ in case['nodes']], dtype=np.int64), kinds.get('node_ids')),
+                         data=as_kind(np.array([[num_float(v) for v in p] for _, p in case['nodes']], dtype=float), kinds.get('coord')),
+                         silent=True)
+    el = {t: FEMAttribute(t, ids=as_kind(np.array([e for e, _ in b], dtype=np.int64), kinds.get('elem_ids')),
+                          data=as_kind(np.array([c for _, c in b], dtype=np.int64), kinds.get('conn')),
                           silent=True) for t, b in case['blocks'].items()}
     fd = X.quiet(lambda: FEMData(nodes=nodes, elements=FEMElementalAttribute('ELEMENT', G.insertion_order(el))))
     eg = {}
@@ -295,9 +552,19 @@ def build_fem(case):
         X.quiet(fd.materials.update_data, [s['mat']], {
             'Young_modulus': np.array([[mat_float(s['young'])]]),
             'Poisson_ratio': np.array([[mat_float(s['poisson'])]])})
+    if case.get('multi'):
+        # several sections / materials: the two tables are built the way the reader itself builds them (ids of the section
+        # table = material names, which repeat when two sections share a material)
+        secs, mats = secs_of(case)
+        fd.sections = X.quiet(lambda: FEMAttributes(
+            names=['TYPE', 'EGRP'], ids=[m for _, _, m in secs],
+            list_arrays=[np.array(['SHELL' if sh else 'SOLID' for sh, _, _ in secs]), np.array([g for _, g, _ in secs])]))
+        fd.materials = X.quiet(lambda: FEMAttributes(
+            names=['Young_modulus', 'Poisson_ratio'], ids=list(mats),
+            list_arrays=[np.array([[mat_float(y)] for y, _ in mats.values()]), np.array([[mat_float(q)] for _, q in mats.values()])]))
     if case['temp'] is not None:
         X.quiet(fd.nodal_data.update_data, np.array([i for i, _ in case['temp']], dtype=np.int64),
-                {'INITIAL_TEMPERATURE': np.array([[num_float(v)] for _, v in case['temp']], dtype=float)})
+                {'INITIAL_TEMPERATURE': as_kind(np.array([[num_float(v)] for _, v in case['temp']], dtype=float), kinds.get('temp'))})
     fd.settings['solution_type'] = 'STATIC'
     return fd
 
@@ -339,11 +606,11 @@ def canon_real(fd):
         for i, r in zip(a.ids, a.data):
             out['elems'][int(i)] = [t, [int(x) for x in r]]
     out['egroups'] = {str(k): [int(x) for x in np.asarray(v).ravel()] for k, v in fd.element_groups.items()}
-    out['sections'] = {}
+    out['sections'] = []           # [material, TYPE, EGRP] in table order (material names repeat: not a dict)
     if 'TYPE' in fd.sections:
         ty, eg = fd.sections['TYPE'], fd.sections['EGRP']
         for m, t, g in zip(ty.ids, np.ravel(ty.data), np.ravel(eg.data)):
-            out['sections'][str(m)] = [str(t), str(g)]
+            out['sections'].append([str(m), str(t), str(g)])
     out['materials'] = {}
     for prop in ('Young_modulus', 'Poisson_ratio'):
         if prop in fd.materials:
@@ -418,6 +685,53 @@ def model_read(ctx, lines, cfg=(0, 0)):
     return _parse_mshread(t, rep)
 
 
+def model_secmat(ctx, case):
+    """section + material lines of a case with several sections (Femio.Fistr.secMatLines); None when a material value is
+    not a 9-digit decimal"""
+    secs, mats = secs_of(case)
+    if any(y[0] == 'h' or q[0] == 'h' for y, q in mats.values()):
+        return None
+    line = 'c01.secmat ' + C.enc_list(secs, lambda x: f'{int(x[0])} {C.esc(x[1])} {C.esc(x[2])}') + ' ' + C.enc_list(
+        list(mats.items()), lambda x: f'{C.esc(x[0])} {X.enc_sci((False, *x[1][0]))} {X.enc_sci((False, *x[1][1]))}')
+    t = C.Toks(ctx.driver.ask(line))
+    if t.tok() != 'ok':
+        raise RuntimeError('driver: c01.secmat')
+    return t.lst(lambda: C.unesc(t.tok()))
+
+
+def model_assign(ctx, lines, cfg=(0, 0)):
+    """Femio.Fistr.assignOfRead of the text as the model reader reads it: {element id: [young, poisson]} or None"""
+    rep = ctx.driver.ask(f'c01.assign {cfg[0]} {cfg[1]} ' + C.enc_list(lines, C.esc))
+    t = C.Toks(rep)
+    if t.tok() != 'ok':
+        raise RuntimeError('driver: ' + rep[:200])
+    if t.nat() == 0:
+        return None
+    rows = t.lst(lambda: (t.nat(), t.lst(lambda: X.read_dec(t))))
+    return {i: v for i, v in rows}
+
+
+def tie_sections(ctx, case, lines, got, inp):
+    """tie D of Model/FistrSections.lean on a case with sections: (a) several sections: the writer's section / material
+    lines are the model's; (b) the reader's resolution of materials onto elements is `assignOfRead` of the same text"""
+    if case.get('multi'):
+        ml = model_secmat(ctx, case)
+        k0 = next((k for k, ln in enumerate(lines) if ln.startswith('!SECTION')), len(lines))
+        k1 = next((k for k, ln in enumerate(lines) if ln.startswith(('!INITIAL', '!END'))), len(lines))
+        ctx.count('tie: section / material lines of several sections' + (' (skipped: value not a 9-digit decimal)' if ml is None else ''))
+        if ml is not None and ml != lines[k0:k1]:
+            ctx.disagree('msh text (section / material lines of several sections)', inp, first_diff(lines[k0:k1], ml), None)
+    ma = model_assign(ctx, lines)
+    ctx.count('tie: assignOfRead vs elemental_data')
+    real = {}
+    for k, prop in enumerate(('Young_modulus', 'Poisson_ratio')):
+        for e, v in got['elemental'].get(prop, {}).items():
+            real.setdefault(e, [None, None])[k] = v
+    if ma is None or repr(_norm(ma)) != repr(_norm(real)):
+        ctx.disagree('material assignment (Femio.Fistr.assignOfRead vs elemental_data of the real reader)', inp,
+                     str(sorted(real.items()))[:300], None if ma is None else str(sorted(ma.items()))[:300])
+
+
 def model_canon(ctx, case):
     """(decide (Femio.C01.WF m), Femio.C01.canon m): hypothesis and right-hand side of theorem C01_roundtrip"""
     rep = ctx.driver.ask('c01.canon ' + enc_case(case))
@@ -450,10 +764,10 @@ def _parse_mshread(t, rep):
             out['elems'][i] = [ty, c]
     out['ngroups'] = dict(t.lst(group))
     out['egroups'] = dict(t.lst(group))
-    out['sections'] = {}
+    out['sections'] = []
     for _ in range(t.nat()):
         m, ty, g = C.unesc(t.tok()), C.unesc(t.tok()), C.unesc(t.tok())
-        out['sections'][m] = [ty, g]
+        out['sections'].append([m, ty, g])
     out['materials'] = {}
     for _ in range(t.nat()):
         m = C.unesc(t.tok())
@@ -498,9 +812,11 @@ def expected_of(case):
            'egroups': {nm: sorted(ids) for nm, ids in case['groups']},
            'temp': None if case['temp'] is None else {i: num_float(v) for i, v in case['temp'] if i in ref}}
     exp['egroups']['ALL'] = sorted(exp['elems'])
-    s = case['sec']
-    exp['sections'] = {} if s is None else {s['mat']: ['SHELL' if s['shell'] else 'SOLID', s['egrp']]}
-    exp['materials'] = {} if s is None else {s['mat']: [mat_float(s['young']), mat_float(s['poisson'])]}
+    secs, mats = secs_of(case)
+    exp['sections'] = sorted([m, 'SHELL' if sh else 'SOLID', g] for sh, g, m in secs)
+    exp['materials'] = {m: [mat_float(y), mat_float(q)] for m, (y, q) in mats.items()}
+    # element -> material value, resolved through section -> group -> members (the groups of the sections are disjoint)
+    exp['assign'] = [{e: exp['materials'][m][k] for _, g, m in secs for e in exp['egroups'][g]} for k in range(2)]
     return exp, ref
 
 
@@ -522,19 +838,19 @@ def oracle_roundtrip(case, got):
     gg = {k: sorted(v) for k, v in got['egroups'].items()}
     if gg != exp['egroups']:
         bad.append(('egroups', f'read {gg} written {exp["egroups"]}'))
-    if got['sections'] != exp['sections']:
+    if sorted(got['sections']) != exp['sections']:
         bad.append(('section', f'read {got["sections"]} written {exp["sections"]}'))
     if set(got['materials']) != set(exp['materials']) or any(
             len(got['materials'][m]) != 2 or not all(X.close(r, o, 1e-8) for r, o in zip(got['materials'][m], v))
             for m, v in exp['materials'].items()):
         bad.append(('material', f'read {got["materials"]} written {exp["materials"]}'))
-    if case['sec'] is not None and not bad:
-        members = exp['egroups'][case['sec']['egrp']]
+    if exp['sections'] and not bad:
         for k, prop in enumerate(('Young_modulus', 'Poisson_ratio')):
-            tab = got['elemental'].get(prop, {})
-            v = exp['materials'][case['sec']['mat']][k]
-            if sorted(tab) != sorted(members) or not all(X.close(tab[e], v, 1e-8) for e in members):
-                bad.append(('material-assignment', f'{prop} assigned to {sorted(tab)} expected {members} value {v}'))
+            tab, want = got['elemental'].get(prop, {}), exp['assign'][k]
+            if sorted(tab) != sorted(want) or not all(X.close(tab[e], v, 1e-8) for e, v in want.items()):
+                e = next(e for e in sorted(set(tab) | set(want)) if e not in tab or e not in want or not X.close(tab[e], want[e], 1e-8))
+                bad.append(('material-assignment', f'{prop} of element {e}: read {tab.get(e)} expected {want.get(e)} '
+                                                   f'(sections {exp["sections"]}, elements with a value {sorted(tab)} expected {sorted(want)})'))
                 break
     if exp['temp'] is None:
         if got['temp'] is not None:
@@ -654,8 +970,8 @@ def variant(rnd, lines, kind):
                 ls[k] = ','.join([p if j == 0 else ws() + p.lstrip(' ') for j, p in enumerate(ln.split(','))])
             else:
                 ls[k] = ','.join(ws() + p + ws() for p in ln.split(','))
-    elif kind in ('G4', 'G6'):
-        want = ('!NODE', '!ELEMENT') if kind == 'G4' else ('!EGROUP',)
+    elif kind in ('G4', 'G6', 'G7'):
+        want = {'G4': ('!NODE', '!ELEMENT'), 'G6': ('!EGROUP',), 'G7': ('!INITIAL CONDITION',)}[kind]
         cand = [(h, d) for h, d in blocks_of(ls) if ls[h].startswith(want) and len(d) >= 2]
         if not cand:
             return None
@@ -678,16 +994,46 @@ def signature(kind, clause):
     return f'{kind}:{clause}'
 
 
+def count_round5(ctx, case, prefix=''):
+    """input distribution of the dimensions added in round 5"""
+    secs, mats = secs_of(case)
+    if case.get('multi'):
+        ctx.count(prefix + f'sections: {len(secs)}, materials: {len(mats)}')
+        used = [m for _, _, m in secs]
+        if len(set(used)) < len(used):
+            ctx.count(prefix + 'sections: two sections share a material (many-to-one)')
+        if set(mats) - set(used):
+            ctx.count(prefix + 'sections: a material no section uses')
+        if [m for m in mats if m in used] != list(dict.fromkeys(used)):
+            ctx.count(prefix + 'sections: material table in another order than the sections')
+        n_el = sum(len(b) for b in case['blocks'].values())
+        if len(mats) == n_el:
+            ctx.count(prefix + 'square: n_material == n_element')
+        if len(mats) == len(case['nodes']):
+            ctx.count(prefix + 'square: n_material == n_node')
+    if len(case['nodes']) == sum(len(b) for b in case['blocks'].values()):
+        ctx.count(prefix + 'square: n_node == n_element')
+    members = [tuple(sorted(g[1])) for g in case['groups']]
+    if len(set(members)) < len(members):
+        ctx.count(prefix + 'groups: two groups with the same members')
+    if case.get('temp_style'):
+        ctx.count(prefix + 'temperature field style:' + case['temp_style'])
+    if case.get('coord_style'):
+        ctx.count(prefix + 'coordinate axis style:' + case['coord_style'])
+    for part, kind in (case.get('arrays') or {}).items():
+        ctx.count(prefix + f'array kind: {part} {kind}')
+
+
 def eval_case(ctx, case, n_variants):
     rnd = ctx.rng
     desc = {'kind': case['kind'], 'order': case['order'], 'id_style': case['id_style'], 'decimal': case['decimal'],
             'n_nodes': len(case['nodes']), 'types': list(case['blocks']),
             'n_elems': sum(len(b) for b in case['blocks'].values()), 'groups': case['group_style'],
-            'section': None if case['sec'] is None else ('SHELL' if case['sec']['shell'] else 'SOLID'),
+            'section': ('several' if case.get('multi') else None) if case['sec'] is None else ('SHELL' if case['sec']['shell'] else 'SOLID'),
             'temp': case['temp'] is not None}
     ids = [i for i, _ in case['nodes']]
     nontrivial = ids != list(range(1, len(ids) + 1)) or len(case['blocks']) > 1 or bool(case['groups']) \
-        or case['sec'] is not None or case['temp'] is not None
+        or case['sec'] is not None or case['temp'] is not None or bool(case.get('multi'))
     ctx.case(C.hashlib.sha1(C.json.dumps(case, sort_keys=True).encode()).hexdigest(), sample=desc, nontrivial=nontrivial)
     ctx.count('stream:' + case['kind'])
     ctx.count('order:' + case['order'])
@@ -709,6 +1055,7 @@ def eval_case(ctx, case, n_variants):
     ctx.count('groups:' + case['group_style'] + ('+ALL' if case['has_all'] else ''))
     ctx.count('section:' + str(desc['section']))
     ctx.count('temp:' + str(desc['temp']))
+    count_round5(ctx, case)
     ctx.count('unreferenced-nodes:' + str(len(ids) - len({n for b in case['blocks'].values() for _, c in b for n in c})))
     # 1. real write
     try:
@@ -717,7 +1064,7 @@ def eval_case(ctx, case, n_variants):
         ctx.fail(signature('roundtrip', 'write-raises:' + type(e).__name__), f'write("fistr") raised {e!r}', {'mesh': case}, repr(e))
         return
     # 2. model text == real text
-    if ctx.driver is not None and case['decimal']:
+    if ctx.driver is not None and case['decimal'] and not case.get('multi'):
         mlines = model_write(ctx, case)
         if mlines != lines:
             k = next((k for k, (a, b) in enumerate(zip(mlines or [], lines)) if a != b), min(len(mlines or []), len(lines)))
@@ -745,9 +1092,11 @@ def eval_case(ctx, case, n_variants):
         k = 'model-raises' if mr is None else same_read(got, mr)
         if k:
             ctx.disagree('msh read: ' + k, {'mesh': case}, got.get(k), None if mr is None else mr.get(k))
+        if case.get('multi') or (secs_of(case)[0] and len(lines) % 3 == 0):    # one section: a third of the cases
+            tie_sections(ctx, case, lines, got, {'mesh': case})
     # 4b. theorem C01_roundtrip instantiated on this case: its hypothesis `WF m` must hold for the generated
     #     (in-quantifier) input and its right-hand side `canon m` must be what the REAL reader returned
-    if ctx.driver is not None and case['decimal']:
+    if ctx.driver is not None and case['decimal'] and not case.get('multi'):
         wf, canon = model_canon(ctx, case)
         ctx.count('theorem-hypothesis WF:' + str(wf).lower())
         if not wf:
@@ -783,11 +1132,20 @@ def run_variant(ctx, case, d, lines, got, kind, finding=True):
                f'{kind} variant of the written file cannot be read: {e!r}', inp, repr(e))
     if ctx.driver is not None:
         flag = {'G5': 'bang', 'G6': 'merge'}.get(kind)
-        if flag is None:
+        if kind == 'G7':
+            # Cfg pattern without a model flag: the model reader transcribes the current code (the last block of a TYPE wins,
+            # zero padding, `initial-merge=0`); a reader repaired as findings/C01-split-initial-condition.diff proposes
+            # returns what the model returns for the UNSPLIT text (`initial-merge=1`)
+            tally = ctx.extra.setdefault('cfg_mismatches', {}).setdefault('initial-merge', {'0': 0, '1': 0})
+            for val, mv in ((0, model_read(ctx, v)), (1, model_read(ctx, lines))):
+                if check_model(ctx, inp, kind, gv, mv, report=False):
+                    tally[str(val)] += 1
+        elif flag is None:
             check_model(ctx, inp, kind, gv, model_read(ctx, v), report=True)
         else:
             # Cfg pattern: which repair configuration of the model reproduces the tree on this stream?
-            tally = ctx.extra.setdefault('cfg_mismatches', {'bang': {'0': 0, '1': 0}, 'merge': {'0': 0, '1': 0}})
+            tally = ctx.extra.setdefault('cfg_mismatches', {})
+            tally.setdefault(flag, {'0': 0, '1': 0})
             for val in (0, 1):
                 cfg = (val, 0) if flag == 'bang' else (0, val)
                 if check_model(ctx, inp, kind, gv, model_read(ctx, v, cfg), report=False):
@@ -807,6 +1165,30 @@ def check_model(ctx, inp, kind, gv, mv, report):
     if bad and report:
         ctx.disagree(f'msh read ({kind}): {bad}', inp, 'raises' if gv is None else gv.get(bad), None if mv is None else mv.get(bad))
     return bad
+
+
+def large_stream(ctx, n):
+    """a few large-but-cheap meshes: more than 65536 nodes, elements, group members and temperature rows in one block each
+    (oracle only: write -> read -> id-keyed maps; the text is not sent through the model)"""
+    rnd = ctx.rng
+    for _ in range(n):
+        t = rnd.choice(['line', 'line', 'tri', 'tet'])
+        prm = {'seed': rnd.randrange(10 ** 9), 'n_nodes': 65536 + ARITY[t] + rnd.choice([0, 1, 2, 7, 464, 1500]), 'type': t,
+               'id_span': rnd.choice([1, 3]), 'order': rnd.choice(['ascending', 'descending', 'shuffled']), 'temp': rnd.random() < .7}
+        case = expand({'large': prm})
+        inp = {'mesh': {'large': prm}}
+        ctx.case(('large', C.json.dumps(prm, sort_keys=True)), sample={'large': prm}, nontrivial=True)
+        ctx.count(f'large: {t}, more than 65536 rows per block')
+        try:
+            d, lines = real_write(ctx, case, tag='L')
+            got = real_read(ctx, lines, cnt_from=d, tag='L2')
+        except Exception as e:  # noqa
+            ctx.fail(signature('large', 'raises:' + type(e).__name__), f'write -> read of a mesh with more than 65536 rows raised {e!r}', inp, repr(e))
+            continue
+        for clause, detail in oracle_roundtrip(case, got):
+            ctx.fail(signature('large', clause), 'write -> read of a mesh with more than 65536 rows changed the mesh: ' + detail[:400], inp, detail[:400])
+        shutil.rmtree(ctx.tmp / 'L', ignore_errors=True)
+        shutil.rmtree(ctx.tmp / 'L2', ignore_errors=True)
 
 
 def outside_streams(ctx, n):
@@ -998,14 +1380,22 @@ def snapshot_case(fd, base):
     nodes = [[int(i), [num_of_float(x) for x in r]] for i, r in zip(fd.nodes.ids, np.asarray(fd.nodes.data, dtype=float))]
     blocks = {str(t): [[int(e), [int(x) for x in r]] for e, r in zip(a.ids, np.asarray(a.data))] for t, a in fd.elements.items()}
     groups = [[str(k), [int(x) for x in np.asarray(v).ravel()]] for k, v in fd.element_groups.items() if k != 'ALL']
-    sec = None
-    if 'TYPE' in fd.sections and len(fd.sections['TYPE'].ids) == 1:
+    sec = multi = None
+    n_sec = len(fd.sections['TYPE'].ids) if 'TYPE' in fd.sections else 0
+    n_mat = len(fd.materials['Young_modulus'].ids) if 'Young_modulus' in fd.materials else 0
+    if n_sec == 1 and n_mat == 1 and not base.get('multi'):
         ty, eg = fd.sections['TYPE'], fd.sections['EGRP']
         mat = str(ty.ids[0])
         sec = {'shell': str(np.ravel(ty.data)[0]) == 'SHELL', 'egrp': str(np.ravel(eg.data)[0]), 'mat': mat,
                'young': mat_of_float(np.ravel(fd.materials['Young_modulus'].data)[0]),
                'poisson': mat_of_float(np.ravel(fd.materials['Poisson_ratio'].data)[0]),
                'mat_ids': sorted({str(x) for p in ('Young_modulus', 'Poisson_ratio') for x in fd.materials[p].ids})}
+    elif n_sec or n_mat:
+        ty, eg = fd.sections['TYPE'], fd.sections['EGRP']
+        ym, pr = fd.materials['Young_modulus'], fd.materials['Poisson_ratio']
+        multi = {'secs': [[str(t) == 'SHELL', str(g), str(m)] for m, t, g in zip(ty.ids, np.ravel(ty.data), np.ravel(eg.data))],
+                 'mats': [[str(m), mat_of_float(y), mat_of_float(q)] for m, y, q in zip(ym.ids, np.ravel(ym.data), np.ravel(pr.data))],
+                 'mat_ids_aligned': [str(x) for x in ym.ids] == [str(x) for x in pr.ids]}
     temp = None
     if 'INITIAL_TEMPERATURE' in fd.nodal_data:
         a = fd.nodal_data['INITIAL_TEMPERATURE']
@@ -1019,7 +1409,7 @@ def snapshot_case(fd, base):
                 and all(n in now_pos and num_float(now_pos[n][k]) == num_float(base_pos[n][k]) for n in c for k in range(3))]
     return {'kind': base['kind'], 'order': 'after-history', 'id_style': base['id_style'], 'decimal': dec, 'nodes': nodes,
             'blocks': blocks, 'positive': positive, 'group_style': 'after-history', 'groups': groups,
-            'has_all': 'ALL' in fd.element_groups, 'sec': sec, 'temp': temp}
+            'has_all': 'ALL' in fd.element_groups, 'sec': sec, 'multi': multi, 'temp': temp}
 
 
 def in_quantifier(snap):
@@ -1039,6 +1429,16 @@ def in_quantifier(snap):
     s = snap['sec']
     if s is not None and (s['egrp'] != 'ALL' and s['egrp'] not in [g for g, _ in snap['groups']] or s['mat_ids'] != [s['mat']]):
         return 'section'
+    m = snap.get('multi')
+    if m:
+        members = dict(snap['groups'])
+        members['ALL'] = eid
+        mnames = [x[0] for x in m['mats']]
+        if not m['mat_ids_aligned'] or len(set(mnames)) != len(mnames) or not all(g in members and mt in mnames for _, g, mt in m['secs']):
+            return 'section'
+        covered = [e for _, g, _ in m['secs'] for e in members[g]]
+        if len(set(covered)) != len(covered):
+            return 'sections overlap (an element with two materials)'
     return None
 
 
@@ -1064,6 +1464,8 @@ def gen_op(rnd, cur):
         aspects['temperature'] = ['temp.data[r]=', 'temp.data[r]=', 'temp.overwrite', 'temp.loc[i].data='] + (['temp.update_data'] if aligned else [])
     if cur['sec'] is not None:
         aspects['material / section'] = ['mat.data=', 'mat.data=', 'mat.overwrite', 'mat.update_data', 'sec.egrp=']
+    if cur.get('multi'):
+        aspects['material / section'] = ['mat.data[r]=', 'mat.data[r]=', 'mat.overwrite[r]', 'mat.update_data[r]', 'sec.permute', 'sec.mat=']
     if len(types) == 1:
         aspects['elements'] += ['elements.data=', 'elements.update']
     k = rnd.choice(aspects[rnd.choice(sorted(aspects))])
@@ -1100,9 +1502,11 @@ def gen_op(rnd, cur):
             return [k, t, b[r][0], conn(t)]
         sel = rnd.sample([e for e, _ in b], rnd.randint(1, min(2, len(b))))
         return [k, t, sel, [conn(t) for _ in sel]]
+    secg = {x[1] for x in (cur.get('multi') or {'secs': []})['secs']}       # groups of several sections stay disjoint
+    covered = {e for g, mem in cur['groups'] if g in secg for e in mem}
     if k == 'group[j]=':
         g, members = rnd.choice(cur['groups'])
-        free = [e for e in eid if e not in members]
+        free = [e for e in eid if e not in members and not (g in secg and e in covered)]
         j = rnd.randrange(len(members))
         return [k, g, j, rnd.choice(free) if free else members[j]]
     if k in ('group=', 'group.add'):
@@ -1112,9 +1516,12 @@ def gen_op(rnd, cur):
             inside = [x for x in (gn[:-1] for gn in gnames) if x and x.upper() != 'ALL' and x not in gnames]
             more = [gn + t for gn in gnames for t in ('0', '1', '_') if gn + t not in gnames]
             g = rnd.choice(inside + more) if (inside + more) and rnd.random() < .6 else X.rand_name(rnd, gnames)
+        if g in secg:
+            own = [e for e in eid if e in dict(cur['groups'])[g] or e not in covered]
+            return ['group=', g, rnd.sample(own, rnd.randint(1, len(own)))]
         return ['group=', g, rnd.sample(eid, rnd.randint(1, len(eid)))]
     if k == 'group.del':
-        free = [g for g in gnames if cur['sec'] is None or g != cur['sec']['egrp']]
+        free = [g for g in gnames if (cur['sec'] is None or g != cur['sec']['egrp']) and g not in secg]
         return [k, rnd.choice(free)] if free else ['group=', gnames[0], rnd.sample(eid, rnd.randint(1, len(eid)))]
     if k == 'temp.add':
         return [k, [rand_num(rnd, dec) for _ in nid]]
@@ -1131,6 +1538,16 @@ def gen_op(rnd, cur):
         return [k, rnd.choice(['Young_modulus', 'Poisson_ratio']), list(X.rand_sci(rnd, 8, 'unit', allow_zero=False)[1:])]
     if k == 'sec.egrp=':
         return [k, rnd.choice(gnames + ['ALL'])]
+    if k in ('mat.data[r]=', 'mat.overwrite[r]', 'mat.update_data[r]'):
+        return [k, rnd.choice(['Young_modulus', 'Poisson_ratio']), rnd.randrange(len(cur['multi']['mats'])),
+                list(X.rand_sci(rnd, 8, 'unit', allow_zero=False)[1:])]
+    if k == 'sec.permute':          # the sections exchange their groups (stays a disjoint cover)
+        perm = list(range(len(cur['multi']['secs'])))
+        rnd.shuffle(perm)
+        return [k, [cur['multi']['secs'][j][1] for j in perm]]
+    if k == 'sec.mat=':             # the sections are assigned other materials: a new ids column of the section table
+        mn = [m[0] for m in cur['multi']['mats']]
+        return [k, [rnd.choice(mn) for _ in cur['multi']['secs']]]
     raise AssertionError(k)
 
 
@@ -1197,6 +1614,21 @@ def apply_op(fd, op):
     elif k == 'sec.egrp=':
         a = fd.sections['EGRP']
         a.data = np.reshape(np.array([op[1]], dtype=object), np.shape(a.data))
+    elif k == 'mat.data[r]=':
+        fd.materials[op[1]].data[op[2], 0] = mat_float(op[3])
+    elif k == 'mat.overwrite[r]':
+        a = np.array(fd.materials[op[1]].data, dtype=float)
+        a[op[2], 0] = mat_float(op[3])
+        fd.materials.overwrite(op[1], a)
+    elif k == 'mat.update_data[r]':
+        fd.materials.update_data([str(fd.materials[op[1]].ids[op[2]])], {op[1]: np.array([[mat_float(op[3])]])}, allow_overwrite=True)
+    elif k == 'sec.permute':
+        a = fd.sections['EGRP']
+        a.data = np.reshape(np.array(op[1], dtype=object), np.shape(a.data))
+    elif k == 'sec.mat=':
+        from femio import FEMAttributes
+        ty, eg = np.ravel(fd.sections['TYPE'].data), np.ravel(fd.sections['EGRP'].data)
+        fd.sections = FEMAttributes(names=['TYPE', 'EGRP'], ids=list(op[1]), list_arrays=[np.array(ty), np.array(eg)])
     else:
         raise AssertionError(k)
 
@@ -1301,7 +1733,7 @@ def history_check(ctx, case0, hist, rnd=None, n_ops=0):
             out.append(('disagree', 'a fresh object with the same public content writes another text', first_diff(lines, flines)))
     except Exception as e:  # noqa
         out.append(('disagree', 'second / fresh write raises', repr(e)))
-    if ctx.driver is not None and snap['decimal']:
+    if ctx.driver is not None and snap['decimal'] and not snap.get('multi'):
         mlines = model_write(ctx, snap)
         if mlines != lines:
             out.append(('disagree', 'msh text (model on the state before the write)', first_diff(lines, mlines or [])))
@@ -1369,12 +1801,15 @@ def run(ctx):
     lap('main')
     # G5 / G6: comment lines starting with `!!`, an !EGROUP block split in two
     m = ctx.n(25, 200)
-    done = {'G5': 0, 'G6': 0}
+    done = {'G5': 0, 'G6': 0, 'G7': 0}
     tries = 0
-    while min(done.values()) < m and tries < 20 * m:
+    want = {'G5': m, 'G6': m, 'G7': ctx.n(12, 200)}
+    while any(done[x] < want[x] for x in done) and tries < 20 * m:
         tries += 1
         case = gen_case(ctx.rng)
-        kind = 'G5' if done['G5'] <= done['G6'] else 'G6'
+        kind = min((x for x in done if done[x] < want[x]), key=lambda x: (done[x], x))
+        if kind == 'G7' and (case['temp'] is None or len(case['nodes']) < 2):
+            continue
         if kind == 'G6' and not any(len(g[1]) >= 2 for g in case['groups']):
             continue
         if kind == 'G6' and case['group_style'] == 'singletons':
@@ -1390,6 +1825,8 @@ def run(ctx):
     lap('G5/G6')
     outside_streams(ctx, ctx.n(6, 40))
     lap('outside')
+    large_stream(ctx, ctx.n(1, 4))
+    lap('large')
     # the same FEMData object written two or three times (half of the cases with prisms)
     twice_stream(ctx, ctx.n(50, 400))
     lap('same-object-twice')
@@ -1404,14 +1841,18 @@ def run(ctx):
             ok = [int(v) for v, n_bad in t.items() if n_bad == 0]
             det[flag] = ok
             if len(ok) == 0:
-                ctx.disagree(f'no ReadCfg value of `{flag}` reproduces the reader on the G5/G6 stream', {'tally': t}, None, None)
+                ctx.disagree(f'no ReadCfg value of `{flag}` reproduces the reader on the G5/G6/G7 stream', {'tally': t}, None, None)
         ctx.extra['cfg_detected'] = det
 
 
 def replay(ctx, obj):
     inp = obj['input']
-    case = inp['mesh']
+    case = expand(inp['mesh'])
     res = {'case': {k: case[k] for k in ('kind', 'order', 'id_style')}}
+    if 'large' in case:
+        d, lines = real_write(ctx, case, tag='L')
+        bad = oracle_roundtrip(case, real_read(ctx, lines, cnt_from=d, tag='L2'))
+        return {**res, 'roundtrip': [[c, x[:300]] for c, x in bad], 'fails': bool(bad)}
     if 'twice' in inp:      # stream "same object written twice"
         bad = twice_check(ctx, case, inp['twice']['n_writes'], inp['twice']['same_dir'], inp['twice'].get('pre_existing'))
         return {**res, 'same_object_written_repeatedly': [list(b) for b in bad], 'fails': bool(bad)}
@@ -1443,7 +1884,7 @@ def replay(ctx, obj):
         if ctx.driver is not None:
             mv = model_read(ctx, inp['variant_text'])
             res['model_read_variant'] = 'raises / outside the model' if mv is None else {k: mv[k] for k in ('node_order', 'egroups')}
-    if ctx.driver is not None and case.get('decimal'):
+    if ctx.driver is not None and case.get('decimal') and not case.get('multi'):
         ml = model_write(ctx, case)
         res['model_text_equals_written_text'] = ml == lines
     res['fails'] = fails
